@@ -35,9 +35,10 @@ func zzC19_bls(op int) {
 	sig2b, _ := sk2r.Sign(msg2, ht)
 	pop1, _ := BLSGeneratePOP(sk1r)
 	agg, _ := AggregateBLSSignatures([]Signature{sig1, sig2})
+	agg0 := append([]byte{}, agg...) // (copied before any other library call: a result must stay what it was)
+	_, _ = AggregateBLSSignatures([]Signature{sig1, sig1, sig2}) // another aggregation with a different result in between
 	aggb, _ := AggregateBLSSignatures([]Signature{sig1, sig2b})
 	sig10 := append([]byte{}, sig1...)
-	agg0 := append([]byte{}, agg...)
 	pks := []PublicKey{pk1, pk2}
 	sigs := []Signature{sig1, sig2}
 	msgs := [][]byte{msg, msg2}
